@@ -438,3 +438,44 @@ pub fn h_c04_cell_input() {
     }
     reach("C04.cell_input");
 }
+
+// ------------------------------------------------------------------------------------- formulas under undo (C01/C02)
+
+fn formula_model() -> Option<UserModel<'static>> {
+    let mut um = user_model_paused(workbook_with_cells(vec![empty_sheet("Sheet1", 1), empty_sheet("Sheet2", 2)]));
+    if um.set_user_input(0, 20, 7, "=B2+$C$3+D10:E12").is_err() { return None; }
+    if um.set_user_input(1, 3, 2, "=Sheet1!B2*2").is_err() { return None; }
+    Some(um)
+}
+fn formulas_of(um: &UserModel) -> (String, String) {
+    (um.model.get_cell_formula(0, 20, 7).unwrap_or(None).unwrap_or_default(), um.model.get_cell_formula(1, 3, 2).unwrap_or(None).unwrap_or_default())
+}
+
+/// a structural edit above/through the referenced cells, then undo: every formula text is what it was; redo: what the edit made it
+pub fn h_c01_formulas_structural_undo() {
+    let entered = formula_model();
+    check("C01.formulas.entered", entered.is_some());
+    let mut um = match entered { Some(m) => m, None => return };
+    let before = formulas_of(&um);
+    let k = any_u8();
+    assume(k < 4);
+    let (p, n) = (any_i32_in(1, 13), any_i32_in(1, 2));
+    let r = if k == 0 { um.insert_rows(0, p, n) } else if k == 1 { um.delete_rows(0, p, n) }
+            else if k == 2 { assume(p <= 6); um.insert_columns(0, p, n) } else { assume(p + n <= 7); um.delete_columns(0, p, n) };
+    if r.is_ok() {
+        let after = (um.model.get_cell_formula(0, if k == 0 { pi_insert(20, p, n) } else if k == 1 { 20 - n } else { 20 }, if k == 2 { pi_insert(7, p, n) } else if k == 3 { 7 - n } else { 7 }).unwrap_or(None).unwrap_or_default(),
+                     formulas_of(&um).1);
+        if um.undo().is_ok() {
+            // KF-C01-5: a reference that the deletion turned into #REF! is not brought back by undo
+            let hit = |x: i32| (p <= x) & (x < p + n);
+            let lost_reference = ((k == 1) & (hit(2) | hit(3) | hit(10) | hit(12))) | ((k == 3) & (hit(2) | hit(3) | hit(4) | hit(5)));
+            check_kf("C01.formulas_structural.undo", formulas_of(&um) == before, "KF-C01-5", lost_reference);
+            if um.redo().is_ok() {
+                let again = (um.model.get_cell_formula(0, if k == 0 { pi_insert(20, p, n) } else if k == 1 { 20 - n } else { 20 }, if k == 2 { pi_insert(7, p, n) } else if k == 3 { 7 - n } else { 7 }).unwrap_or(None).unwrap_or_default(),
+                             formulas_of(&um).1);
+                check("C02.formulas_structural.redo", again == after);
+            }
+        }
+    }
+    reach("C01.formulas_structural");
+}
